@@ -61,7 +61,7 @@ CHECKS = {
         text="Static error-discipline rules on everything reachable from Program.__init__/run and on the XMAP reader: unpacked "
              "zip(*xs) needs a dominating non-emptiness guard, apply(...).tolist() in the readers needs an .empty guard, "
              "identity-free reductions need default=/initial= or a guard, the Optional worker result is None-tested before "
-             "dereference, the too-long-query early return dominates the 'valid' correlations. Also: argpartition under k < len, empty-row filter, row-header coordinates are exact label coordinates (list.index lookups), additional file names are built by a total function (os.path.splitext). Round 3: no set over a class with __eq__ but no __hash__; positive join-score denominators (as C14.1). Round 4: no array or table survives from one molecule to the next (C07.G13); attribute reads under an isinstance guard exist on every guarded class (C07.G14, contradiction rule).",
+             "dereference, the too-long-query early return dominates the 'valid' correlations. Also: argpartition under k < len, empty-row filter, row-header coordinates are exact label coordinates (list.index lookups), additional file names are built by a total function (os.path.splitext). Round 3: no set over a class with __eq__ but no __hash__; positive join-score denominators (as C14.1). Round 4: no array or table survives from one molecule to the next (C07.G13); attribute reads under an isinstance guard exist on every guarded class (C07.G14, contradiction rule). Round 5: the cross-correlation of a reference window is computed only for a non-empty window vector (C07.G15; defect F6, fixed in f18f884).",
         note="Hand-written summaries of which external calls raise on empty input (listed in evidence assumptions); a frozen "
              "exception table of named lookups with reasons. General exception freedom is declined.",
         tech="static analysis: idiom table (R-GUARD) judged on enumerated paths with guard facts; call-graph reachability",
@@ -240,7 +240,7 @@ def main():
         "checks": checks,
         "notes": "All checks: exit 0 = every rule instance holds; exit 1 + 'VIOLATION property=<id> replay=<path>' = a recognised "
                  "construct deviates; exit 2 + 'ANALYSIS-ERROR ...' = anchor vanished / idiom not recognised (never a VIOLATION "
-                 "line). Five genuine defects were repaired in /repo with 'fix:' commits; one more (C08, join of multi-segment "
+                 "line). Six genuine defects were repaired in /repo with 'fix:' commits; one more (C08, join of multi-segment "
                  "records) is recorded un-repaired as a known finding: its check prints a KNOWN-FINDING line and exits 0 (see "
                  "known_findings.json and DESIGN.md section 5).",
         "not_applicable": na,
